@@ -341,6 +341,120 @@ def corr_rotator(seed, tier):
     return R
 
 
+# ----------------------------------------------------------------------------------------------------- CPCCARotator
+def corr_crot(seed, tier):
+    """CPCCARotator / MCARotator / ComplexCPCCARotator .fit and .transform (Varimax power=1 and Promax power>1; alpha in [0,1]^2;
+    PCA pre-reduction off or keeping all modes; real and complex fields) against XM.crotFit / crotTransform. The model gets the
+    unrotated model's stored vectors, singular values and scores, the rotation matrix the iteration converged to (for power>1 also
+    numpy's inverse of it) and, as matrices, the linear maps between whitened PC space and physical space (obtained by sending the
+    identity through the implementation's Whitener/PCA component maps, which the `whitener` correspondence ties on their own); it must
+    reproduce rotated vectors, scores, norms, squared covariance, signs, the sorting permutation, and the transform of new data of
+    both fields with and without normalisation."""
+    R = Result("crot")
+    rng = np.random.default_rng(21000 + seed)
+    want = {"quick": 8, "thorough": 48, "search": 24}[tier]
+    cands = []
+    for i in range(4 * want):
+        n, p, q = int(rng.integers(14, 30)), int(rng.integers(3, 6)), int(rng.integers(2, 5))
+        k = int(rng.integers(2, min(p, q) + 1))
+        power = [1, 2, 1, 3][i % 4]
+        cplx = bool(i % 5 == 4)
+        use_pca = bool(i % 3 == 1)
+        alpha = [float(rng.choice([1.0, 0.5, 0.0, float(rng.uniform(0, 1))])) for _ in range(2)]
+        if cplx:
+            A, B = _cfield(rng, n, p), _cfield(rng, n, q)
+            B[:, :min(p, q)] += 0.7 * A[:, :min(p, q)]
+        else:
+            A = rng.normal(size=(n, p)) @ rng.normal(size=(p, p))
+            B = rng.normal(size=(n, q)) @ rng.normal(size=(q, q))
+            B[:, :min(p, q)] += 0.7 * A[:, :min(p, q)]
+        X, Y = da2d(A, "time", "x"), da2d(B, "time", "y")
+        cls, rcls = ("ComplexCPCCA", "ComplexCPCCARotator") if cplx else (("CPCCA", "CPCCARotator") if i % 2 else ("MCA", "MCARotator"))
+        cfg = {"n_modes": min(p, q), "solver": "full", "use_pca": use_pca}
+        if use_pca:
+            cfg["n_pca_modes"] = "all"
+        if "CPCCA" in cls:
+            cfg["alpha"] = alpha
+        try:
+            with warnings.catch_warnings():
+                warnings.simplefilter("ignore")
+                model = getattr(xe.cross, cls)(**cfg).fit(X, Y, "time")
+                rot = getattr(xe.cross, rcls)(n_modes=k, power=power, max_iter=5000, rtol=1e-10).fit(model)
+        except RuntimeError:
+            R.tally("skipped", "rotation did not converge")
+            continue
+        perm_id = list(rot.data["idx_modes_sorted"].values) == list(range(k))
+        mixed = len(set(np.sign(rot.data["modes_sign"].values))) > 1
+        cands.append((int(perm_id) + int(not mixed), i, n, p, q, k, power, cplx, use_pca, A, B, model, rot, cls, perm_id, mixed))
+    cands.sort(key=lambda c: (c[0], c[1]))
+    reqs, exps = [], []
+    for (_, i, n, p, q, k, power, cplx, use_pca, A, B, model, rot, cls, perm_id, mixed) in cands[:want]:
+        R.tally("class", cls)
+        R.tally("power", power)
+        R.tally("pca", use_pca)
+        R.tally("order", "identity" if perm_id else "permuted")
+        R.tally("signs", "mixed" if mixed else "uniform")
+        sn = model.sample_name
+        f1, f2 = model.feature_name
+        Q1 = model.data["components1"].sel(mode=slice(1, k))
+        Q2 = model.data["components2"].sel(mode=slice(1, k))
+        pw, qw = Q1.sizes[f1], Q2.sizes[f2]
+
+        def lin_map(fn_chain, feat, coords, size):
+            """matrix of a linear map on (feature x mode) arrays: send the identity through it"""
+            E = xr.DataArray(np.eye(size, dtype=complex if cplx else float), dims=(feat, "mode"), coords={feat: coords, "mode": np.arange(1, size + 1)})
+            for f in fn_chain:
+                E = f(E)
+            return np.asarray(E.transpose(feat, "mode").values)
+
+        A1 = lin_map([rot.whitener1.inverse_transform_components, rot.pca1.inverse_transform_components], f1, Q1[f1].values, pw)
+        A2 = lin_map([rot.whitener2.inverse_transform_components, rot.pca2.inverse_transform_components], f2, Q2[f2].values, qw)
+        P1 = rot.pca1.inverse_transform_components(rot.whitener1.inverse_transform_components(Q1))
+        P2 = rot.pca2.inverse_transform_components(rot.whitener2.inverse_transform_components(Q2))
+        pp_, qp_ = P1.sizes[f1], P2.sizes[f2]
+        B1 = lin_map([rot.pca1.transform_components, rot.whitener1.transform_components], f1, P1[f1].values, pp_)
+        B2 = lin_map([rot.pca2.transform_components, rot.whitener2.transform_components], f2, P2[f2].values, qp_)
+        Rm = np.asarray(rot.data["rotation_matrix"].transpose("mode_m", "mode_n").values)
+        RinvT = Rm if power == 1 else np.linalg.inv(Rm).conj().T
+        m = int(rng.integers(1, 5))
+        newA = (rng.normal(size=(m, p)) + (1j * rng.normal(size=(m, p)) if cplx else 0)) * np.abs(A).max()
+        newB = (rng.normal(size=(m, q)) + (1j * rng.normal(size=(m, q)) if cplx else 0)) * np.abs(B).max()
+        Xn, Yn = da2d(newA, "time", "x", s0=300), da2d(newB, "time", "y", s0=300)
+        Xw = rot.whitener1.transform(rot.pca1.transform(rot.preprocessor1.transform(Xn)))
+        Yw = rot.whitener2.transform(rot.pca2.transform(rot.preprocessor2.transform(Yn)))
+        t1, t2 = rot.transform(X=Xn, Y=Yn)
+        t1n = rot.transform(X=Xn, normalized=True)
+        exp = {"comps1": rot.data["components1"].transpose(f1, "mode").values, "comps2": rot.data["components2"].transpose(f2, "mode").values,
+               "scores1": rot.data["scores1"].transpose(sn, "mode").values, "scores2": rot.data["scores2"].transpose(sn, "mode").values,
+               "norm1": rot.data["norm1"].values, "norm2": rot.data["norm2"].values, "sqcov": rot.data["squared_covariance"].values,
+               "sgn": rot.data["modes_sign"].values, "tf1": t1.transpose("time", "mode").values, "tf2": t2.transpose("time", "mode").values,
+               "tf1n": t1n.transpose("time", "mode").values}
+        perm_exp = [int(v) for v in rot.data["idx_modes_sorted"].values]
+        req = {"fn": "crot", "cplx": True, "realdata": not cplx, "n": n, "p": int(pp_), "q": int(qp_), "pw": int(pw), "qw": int(qw), "k": k, "m": m,
+               "A1": cbits(A1), "A2": cbits(A2), "B1": cbits(B1), "B2": cbits(B2), "Q1": cbits(Q1.transpose(f1, "mode").values),
+               "Q2": cbits(Q2.transpose(f2, "mode").values), "s": bits(model.data["singular_values"].sel(mode=slice(1, k)).values),
+               "S1": cbits(model.data["scores1"].sel(mode=slice(1, k)).transpose(sn, "mode").values),
+               "S2": cbits(model.data["scores2"].sel(mode=slice(1, k)).transpose(sn, "mode").values), "R": cbits(Rm), "RinvT": cbits(RinvT),
+               "X": cbits(Xw.transpose(sn, f1).values), "Y": cbits(Yw.transpose(sn, f2).values)}
+        shapes = {"comps1": (pw, k), "comps2": (qw, k), "scores1": (n, k), "scores2": (n, k), "norm1": (k,), "norm2": (k,), "sqcov": (k,), "sgn": (k,),
+                  "tf1": (m, k), "tf2": (m, k), "tf1n": (m, k)}
+        reqs.append(req)
+        exps.append((exp, shapes, {"what": cls, "n": n, "p": p, "q": q, "k": k, "power": power, "pca": use_pca, "seed": seed, "case": i}, perm_exp))
+    for (exp, shapes, small, perm_exp), ans in zip(exps, ask(reqs)):
+        if ans.get("status") != "ok":
+            R.cmp("status", False, small, ans, "ok")
+            continue
+        R.cmp("perm", ans["perm"] == perm_exp, small, ans["perm"], perm_exp)
+        for key, shp in shapes.items():
+            if key in ("norm1", "norm2", "sqcov", "sgn"):
+                got = unbits(ans[key], shp)
+                R.cmp(key, close(got, np.asarray(exp[key], dtype=float), 1e-7), small, got.ravel()[:4].tolist(), np.asarray(exp[key]).ravel()[:4].tolist())
+            else:
+                got = uncbits(ans[key], shp)
+                R.cmp(key, cclose(got, exp[key], 1e-7), small, [str(z) for z in got.ravel()[:3]], [str(z) for z in np.asarray(exp[key]).ravel()[:3]])
+    return R
+
+
 # ----------------------------------------------------------------------------------------------------- Whitener / PCA
 def corr_whitener(seed, tier):
     """preprocessing.Whitener (fit, transform, inverse_transform_data, transform_components, inverse_transform_components) and
@@ -972,9 +1086,16 @@ def corr_scaler(seed, tier):
         A = rng.normal(size=(n, ny)) * 10.0 ** rng.integers(-2, 3, size=(1, ny)) + rng.normal(size=(1, ny)) * 5
         if i % 5 == 0:
             A[:, 0] = 3.0  # a constant feature (std clipped)
+        dtype = "float64"
+        if i % 4 == 3:
+            # integer-valued data in an integer dtype: the model's real arithmetic on the same numbers
+            dtype = ["int64", "int16"][(i // 4) % 2]
+            A = np.round(A * 10.0).clip(-30000, 30000).astype(dtype)
         X = xr.DataArray(A, dims=["time", "lat"], coords={"time": np.arange(n), "lat": lat})
+        A = np.asarray(A, dtype=float)
         w = xr.DataArray(rng.uniform(0.2, 3.0, size=ny), dims=["lat"], coords={"lat": lat}) if use_w else None
         R.tally("flags", f"center={c},std={s},coslat={cl},weights={use_w}")
+        R.tally("dtype", dtype)
         sc = Scaler(with_center=c, with_std=s, with_coslat=cl)
         sc.fit(X, ["time"], ["lat"], w)
         Y = sc.transform(X)
@@ -1748,6 +1869,7 @@ CORR = {
     "history": corr_history,
     "lazy": corr_lazy,
     "formulas": corr_formulas,
+    "crot": corr_crot,
 }
 
 # which correspondences tie the model parts a property's theorems are stated on
@@ -1755,14 +1877,14 @@ BY_PROP = {
     "C01": ["complex", "eof_pipeline", "hilbert", "eeof", "sign_rule"],
     "C02": ["frame"],
     "C03": ["complex", "eof_pipeline", "scaler", "cpcca_core", "frame"],
-    "C04": ["complex", "eof_pipeline", "cpcca_core", "rotator", "frame"],
+    "C04": ["complex", "eof_pipeline", "cpcca_core", "rotator", "crot", "frame"],
     "C05": ["eof_pipeline"],
     "C06": ["sanitizer", "frame"],
     "C07": ["frame"],
     "C08": ["scaler", "eof_pipeline"],
     "C09": ["complex", "cpcca_core", "whitener", "formulas"],
     "C10": ["eeof", "complex", "cpcca_core", "whitener", "formulas"],
-    "C11": ["complex", "rotator", "formulas"],
+    "C11": ["complex", "rotator", "crot", "formulas"],
     "C12": ["lazy"],
     "C13": ["codec"],
     "C14": ["history"],
